@@ -86,6 +86,55 @@ def run(ctx):
         except Exception as ex:
             cases.append({'kind': 'dump', 'want': 'c15', 'raised': 1, 'nleaves': nl, 'present': 0, 'dumped': [], 'table': [],
                           'table2': [], '_rules': rules_in, '_exc': '%s: %s' % (type(ex).__name__, ex)})
+    # a long-lived rule set: dump, change in place (merge / item assignment / pop), dump and load again;
+    # references inside the set have been evaluated before the change
+    for s_i in range(30 if q else 600):
+        lenv = ctx.rng.choice(envs)
+        nl = 3
+        leaves = [1, 2, 3]
+        def mk():
+            return lang.render(lang.tree_tokens(lang.random_tree(ctx.rng, ctx.rng.choice([1, 2, 4]), nl), ctx.rng), ctx.rng, lenv.text)
+        rules_in = dict(lenv.rules(leaves))
+        rules_in.update({'p:a': 'rule:p:b or ' + mk(), 'p:b': mk(), 'p:c': mk()})
+        try:
+            e1 = pc.enforcer_for(rules_in)
+            rules = e1.rules
+            str(rules)
+            for asg in ([], [1], [1, 2, 3]):
+                t_, c_ = lenv.env(asg, leaves)
+                e1.enforce('p:a', t_, c_)
+            how = ctx.rng.choice(['set_rules', 'update', 'setitem', 'pop'])
+            newb = mk()
+            if how == 'set_rules':
+                e1.set_rules(policy.Rules.from_dict({'p:b': newb, 'p:d': mk()}), overwrite=False, use_conf=False)
+            elif how == 'update':
+                rules.update(policy.Rules.from_dict({'p:b': newb}))
+            elif how == 'setitem':
+                rules['p:b'] = _parser.parse_rule(newb)
+            else:
+                rules.pop('p:c')
+            dump = str(rules)
+            parsed_dump = json.loads(dump)
+            rules2 = policy.Rules.load(dump)
+            e2 = pc.enforcer_for({})
+            e2.set_rules(rules2, use_conf=False)
+            for nm in sorted(set(rules) | set(rules2)):
+                if not nm.startswith('p:'):
+                    continue
+                c = {'kind': 'dump', 'want': 'c15', 'raised': 0, 'nleaves': nl, 'present': 1 if (nm in rules2 and nm in parsed_dump and nm in rules) else 0,
+                     'dumped': [], 'table': [], 'table2': [], '_name': nm, '_rules': dict(rules_in), '_dump': dump, '_how': how}
+                if c['present'] and 'rule:' not in parsed_dump[nm]:
+                    c['dumped'] = lang.alpha(parsed_dump[nm], lenv.leaf_of)
+                    c['table'] = pc.check_table(rules[nm], leaves, lenv, e1)
+                    c['table2'] = pc.check_table(rules2[nm], leaves, lenv, e2)
+                elif c['present']:
+                    # a rule with a reference: compare decisions only (kind "eq" with eq = 1)
+                    c = {'kind': 'eq', 'want': 'c15', 'eq': 1, 'tableA': pc.check_table(rules[nm], leaves, lenv, e1),
+                         'tableB': pc.check_table(rules2[nm], leaves, lenv, e2), '_a': 'live rule %s after %s' % (nm, how), '_b': 'the same rule after str(Rules)/Rules.load: ' + dump}
+                cases.append(c)
+        except Exception as ex:
+            cases.append({'kind': 'dump', 'want': 'c15', 'raised': 1, 'nleaves': nl, 'present': 0, 'dumped': [], 'table': [],
+                          'table2': [], '_rules': rules_in, '_exc': '%s: %s' % (type(ex).__name__, ex)})
     n_dump = len(cases) - n_text - n_list
     # RuleDefault equality on pairs of textual variants and of different rules
     n_eq = 0
